@@ -196,14 +196,76 @@ def lattice_shape(ctx):
            "a position is processed only if some node ends at its linking boundary (start_node)"
            if ok else "the reachability test does not look at start_node")
     # space skipping: groupable(start_node) added to start_word under the SPACE test on start_node
-    gr = calls_named(fa, "groupable")
-    ci = calls_named(fa, "char_info")
+    def position_calls(name):
+        """[(block in build_lattice_inner, operand there that is the position argument)] of the
+        calls to Sentence::<name> made here or in a helper of this crate called from here with
+        the position handed through as a parameter"""
+        out = [(b, t["args"][1], fa, b) for b, t in calls_named(fa, name) if len(t["args"]) > 1]
+        for b, t in fa.calls():
+            c = callee_of(t)
+            hp = (c.get("resolved") or c)["path"] if c else None
+            h = crate.fns.get(hp) if hp else None
+            if h is None or not h.body or h.krate != "vibrato" or cname(t) in (
+                    "add_lattice_edges", "insert_eos", "has_previous_node", "reset", name):
+                continue
+            hfa = E.fa(hp)
+            for hb, ht in calls_named(hfa, name):
+                if len(ht["args"]) < 2:
+                    continue
+                o = hfa.origin(ht["args"][1])
+                if o[0] == "arg" and o[1] - 1 < len(t["args"]):
+                    out.append((b, t["args"][o[1] - 1], hfa, hb))
+        return out
+    gr = position_calls("groupable")
+    ci = position_calls("char_info")
     ok = len(gr) == 1 and len(ci) == 1 and sn and \
-        (base_local(fa, gr[0][1]["args"][1]) or (None,))[0] in sn and \
-        (base_local(fa, ci[0][1]["args"][1]) or (None,))[0] in sn
+        (base_local(fa, gr[0][1]) or (None,))[0] in sn and \
+        (base_local(fa, ci[0][1]) or (None,))[0] in sn
     ctx.ob("LATTICE", "build_lattice_inner|space-run-from-start_node", bool(ok), fn_loc(crate, p),
            "the SPACE test and the length of the skipped run are both taken at start_node" if ok else
            "the SPACE test / skipped run length are not taken at start_node")
+    # polarity of the SPACE test: the run is skipped exactly on the edge where
+    # (categories of the character & the SPACE set) != 0
+    if len(gr) == 1:
+        gfa, gblk = gr[0][2], gr[0][3]
+        GS = S if gfa is fa else Sym(E, gfa)
+        tests = []
+        for b in sorted(gfa.live_blocks()):
+            t = gfa.term(b)
+            if t["k"] != "switch":
+                continue
+            e = GS.operand(t["op"])
+            if not (e[0] == "binop" and e[1] in ("Ne", "Eq")):
+                continue
+            a_, b_ = strip_casts(e[2]), strip_casts(e[3])
+            x, z = (a_, b_) if (a_[0] == "binop" and a_[1] == "BitAnd") else (b_, a_)
+            if not (x[0] == "binop" and x[1] == "BitAnd"):
+                continue
+            txt = show(x)
+            if "cate_idset(" not in txt or "space_cateset" not in txt:
+                continue
+            f_t, t_t = bool_switch_targets(t)
+            if z == ("const", 0):
+                nonzero_t, zero_t = (t_t, f_t) if e[1] == "Ne" else (f_t, t_t)
+            elif "space_cateset" in show(z) and "cate_idset(" not in show(z):
+                # (categories & set) == set: the set is a single bit (1 << id), same test
+                nonzero_t, zero_t = (t_t, f_t) if e[1] == "Eq" else (f_t, t_t)
+            else:
+                continue
+            tests.append((b, nonzero_t, zero_t))
+        okp = len(tests) == 1
+        why = "%d tests of (categories & SPACE set) against 0 found" % len(tests)
+        if okp:
+            tb, nz, zz = tests[0]
+            on_nz = gblk in gfa.reachable(nz, avoid={zz})
+            on_z = gblk in gfa.reachable(zz, avoid={nz})
+            okp = on_nz and not on_z
+            why = "the run length is taken on the %s edge of the test" % (
+                "zero (not a space)" if on_z and not on_nz else "both" if on_z else "neither")
+        ctx.ob("LATTICE", "build_lattice_inner|space-run-skipped-iff-space", okp, gfa.loc(gblk),
+               "the run is skipped exactly when (categories of the character & SPACE set) != 0" if okp else
+               "the space run is not skipped exactly when the character belongs to SPACE (%s): "
+               "non-space text would be skipped, or spaces tokenized" % why)
     # loop guard and the trailing-space exit: comparisons of the word start with the sentence length
     from r_cand import _lin
     eb = edges0[0][0]
